@@ -149,6 +149,14 @@ def obligations(tier):
         obs.append(approx_ctor_ob(prog, cls))
     for name, cls, ctx, drv in apis.api_list(prog):
         obs.append(api_ob(prog, name, cls, ctx, _mark_setup(drv)))
+    # update(idx, d): every stored field (caches included) of the receiver is scattered from the same-named field of d, so the rows
+    # of the result are rows of two invariant objects (the obligation is shared with C12, where it is the field-exhaustiveness rule)
+    from .c12 import update_ob
+    for cls in ("GaussianPDF", "GaussianDiagPDF"):
+        ob = update_ob(prog, cls)
+        ob.key = "invariant-after-" + ob.key
+        ob.group = "update"
+        obs.append(ob)
     return obs
 
 
@@ -192,7 +200,7 @@ def _run_with_marker(drv, made):
         Interp.construct = orig_construct
 
 
-FLOORS = {"group:invariant": 540, "group:ctor": 31}
+FLOORS = {"group:invariant": 540, "group:ctor": 31, "group:update": 2}
 LEVEL = "proof"
 EXPLANATION = ("Every public operation (API table shared with C12) is interpreted with operands that satisfy the representation invariant (declared "
                "inverse pairs / log-determinants); each returned object's cached fields are compared with the values defined by its natural parameters, "
